@@ -245,3 +245,68 @@ PROPS["C10"] = dict(
     assumptions=["legacy keys are multihashes with one-byte code and length (what the old versions stored)",
                  "entries that were already corrupt in the legacy input are the input's corruption: an upgrade that needs no remapping preserves them (they are dropped lazily on access)"],
 )
+
+
+def race_probe(work, tier, seed):
+    """-race build of the harness, free-running stress; every distinct race report is a concrete failing execution."""
+    import glob, os, re
+    from . import common as C
+    ok, out = C.go_build_race()
+    if not ok:
+        return dict(breaks=[("race-build", "go build -race of the harness failed:\n" + out[-1500:])], evaluations=0)
+    logdir = os.path.join(work, "race")
+    os.makedirs(logdir, exist_ok=True)
+    n = 2 if tier == "quick" else 6
+    env = C.goenv()
+    env["GORACE"] = "log_path=%s/r halt_on_error=0" % logdir
+    import subprocess
+    procs = []
+    for i in range(n):
+        procs.append(subprocess.Popen([C.HARNESS + ".race", "gen", "-engine", "stress", "-seed", str(seed * 100 + i), "-n", "1", "-tier", tier],
+                                      env=env, stdout=subprocess.PIPE, stderr=subprocess.DEVNULL, text=True))
+    outs = [p.communicate(timeout=600)[0] for p in procs]
+    reports = []
+    for f in sorted(glob.glob(os.path.join(logdir, "r.*"))):
+        txt = open(f, errors="replace").read()
+        reports += [r for r in txt.split("==================") if "DATA RACE" in r]
+    def sig(r):
+        fr = re.findall(r"^  (github.com/ipld/go-storethehash[^\s(]*)", r, re.M)
+        return " <-> ".join(fr[:1] + [x for x in fr[1:] if x != fr[0]][:1]) if fr else r[:80]
+    by = {}
+    for r in reports:
+        by.setdefault(sig(r), r)
+    viol = []
+    from .runner import new_replay_path
+    for k, r in list(by.items())[:4]:
+        path = new_replay_path("C16", "violation")
+        with open(path, "w") as f:
+            f.write("# property=C16 engine=stress\n# Go race detector report (harness built with -race -tags verif against /repo; VERIF_SEED=%d)\n" % seed)
+            f.write("# replay: cd /verif && VERIF_SEED=%d ./check C16   (the stress run is free-running: the report recurs within seconds)\n" % seed)
+            f.write(r.strip() + "\n")
+        viol.append((path, "data race: " + k, True))
+    return dict(violations=viol, evaluations=n, nontrivial=[("stress", i) for i in range(n)],
+                summary={"race_stress_runs": n, "race_reports": len(reports), "distinct": list(by.keys())[:8], "stress_results": [o.strip().split("\n")[1] if len(o.strip().split("\n")) > 1 else o for o in outs]},
+                samples=[{"engine": "stress", "trace": [o.strip().split("\n")[1] if len(o.strip().split("\n")) > 1 else o for o in outs][:2]}])
+
+
+PROPS["C16"] = dict(
+    modules=["Sth.Props.C16"],
+    theorems=["Sth.Race.C16_lockset_sound", "Sth.Race.C16_discipline_race_free"],
+    facts=dict(modules=["Sth.Obligations.C16"], theorems=["Sth.Obligations.C16_discipline", "Sth.Obligations.C16_table_nontrivial"]),
+    runs=[],
+    probes=[race_probe],
+    rule="(1) the lockset theorem over an abstract lock-trace semantics; (2) the access table regenerated from /repo's source on every run "
+         "(go/ast extractor: every shared struct field read or written in code reachable from the public API of the property's list, the "
+         "flusher goroutine and both collector goroutines, with the locks held) satisfies the theorem's hypothesis for every conflicting "
+         "pair (kernel-evaluated obligation); (3) a free-running -race stress of the same composition (3 writers on disjoint keys, 2 "
+         "readers, Flush caller, size queries, cache resizing, flusher, both collectors, 256-byte files) as the search for a concrete "
+         "report and as a cross-check of the extractor. Non-trivial = each stress run (seconds of real concurrency under the race detector).",
+    assumptions=["the extractor's precision limits (no alias analysis; bufio/os.File internals attributed to the owning field; interface calls resolved by name)",
+                 "the abstract lock-trace semantics, not the Go memory model itself"],
+)
+
+# regenerated call-order / shape facts as obligations of the properties that rely on them
+PROPS["C03"]["facts"] = dict(modules=["Sth.Obligations.Order"], theorems=["Sth.Obligations.C03_commit_order", "Sth.Obligations.C03_close_order"])
+PROPS["C12"]["facts"] = dict(modules=["Sth.Obligations.Order"], theorems=["Sth.Obligations.C12_flush_paths"])
+PROPS["C14"]["facts"] = dict(modules=["Sth.Obligations.Order"], theorems=["Sth.Obligations.C14_methods_atomic"])
+PROPS["C17"]["facts"] = dict(modules=["Sth.Obligations.Order"], theorems=["Sth.Obligations.C17_done_channels"])
